@@ -591,9 +591,114 @@ def l2_conform(ck, seed, n):
                       'tlc': txt, 'ws': True, 'kind': 'l2-trace'})
 
 
+UP_INVS = ['UpTypeOK', 'UpgradedOnlyViaHandshake', 'FailedLeavesPolling', 'GateHeld', 'NoLossNoDupUp',
+           'InOrderUp']
+
+
+def up_consts(nproc, **kw):
+    c = dict(l2_consts(nproc, MaxMsg=2, Cap=2, SerialPolls='TRUE', Timeouts='FALSE'),
+             Kinds='{"poll", "send"}', BadFrames='TRUE', WellBehaved='TRUE', Deviation='"none"')
+    c.update(kw)
+    return c
+
+
+def up_trace_consts(nproc, wb):
+    b = 'TRUE' if wb else 'FALSE'
+    return up_consts(nproc, MaxMsg=100, Cap=16, SerialPolls=b, WellBehaved=b)
+
+
+def l2_upgrade(ck, th, seed):
+    """L2 for the upgrade of a polling session of the threaded server (EioQueueFineUp): TLC over
+    every interleaving of the upgrade request, the writer it starts, GETs, send() calls and the
+    client's frames, with every write of the two flags a step of its own; then pre-emptive
+    executions of the real Server validated primitive by primitive."""
+    from ..harness import l2
+    jobs = [dict(name='L2 upgrade: upgrade request + writer + %d GET / send() tasks, client sending '
+                      'probe / UPGRADE / wrong frames / going away, one GET at a time and UPGRADE '
+                      'only when none is outstanding: gate, handshake, no-loss and order invariants, '
+                      'one transport' % (4 if th else 3),
+                 spec='UpSpec', consts=up_consts(6 if th else 5), invariants=UP_INVS,
+                 properties=['OneTransport']),
+            dict(name='L2 upgrade: any client (overlapping GETs, UPGRADE at any time): gate, '
+                      'handshake and no-loss invariants',
+                 spec='UpSpec', consts=up_consts(6 if th else 5, SerialPolls='FALSE', WellBehaved='FALSE'),
+                 invariants=['UpTypeOK', 'UpgradedOnlyViaHandshake', 'FailedLeavesPolling', 'GateHeld',
+                             'NoLossNoDupUp']),
+            dict(name='L2 upgrade liveness under fair scheduling: the NOOP ends the pending GET, so '
+                      'a well-behaved client gets to send UPGRADE',
+                 spec='UpFairSpec', consts=up_consts(5, MaxMsg=1, BadFrames='FALSE'),
+                 properties=['ProbeAnswered']),
+            dict(name='L2 upgrade negative control: without put(NOOP) after the probe the pending GET '
+                      'never ends and the upgrade cannot complete',
+                 spec='UpFairSpec', consts=up_consts(5, MaxMsg=1, BadFrames='FALSE', Deviation='"NoNoop"'),
+                 properties=['ProbeAnswered'], must_fail=True),
+            dict(name='L2 upgrade negative control: a GET that ignores the two flags lets messages '
+                      'travel on polling after the upgrade',
+                 spec='UpSpec', consts=up_consts(5, BadFrames='FALSE', Deviation='"PollIgnoresFlags"'),
+                 invariants=['InOrderUp'], properties=['OneTransport'], must_fail=True)]
+    for j in jobs:
+        cfg = tlc.cfg_text(spec=j['spec'], constants=j['consts'], invariants=j.get('invariants', ()),
+                           properties=j.get('properties', ()))
+        r = tlc.run('EioQueueFineUp', cfg, workers=max(2, NCPU // 2), timeout=2400,
+                    constants=j['consts'])
+        if r.error:
+            raise MachineryError('TLC job %s failed: %s\n%s' % (j['name'], r.error, r.out[-2000:]))
+        ck.add_tlc(r, j['name'])
+        if j.get('must_fail'):
+            if not r.violated:
+                raise MachineryError('negative control did not fail: %s' % j['name'])
+            continue
+        if r.violated:
+            ck.violation('EioQueueFineUp: %s violated (%s)' % (r.violated, j['name']),
+                         {'job': j['name'], 'counterexample': '\n'.join(r.trace)[-8000:]})
+        elif r.distinct < 500:
+            raise MachineryError('vacuity: %s has only %d states' % (j['name'], r.distinct))
+    n = 1500 if th else 240
+    rng = random.Random(seed + 91)
+    groups = {True: [], False: []}
+    for i in range(n):
+        wb = i % 2 == 0
+        sc = l2.gen_up_script(rng, wb)
+        t, f = l2.run_up(sc, seed=seed * 100019 + i)
+        groups[wb].append((t, f))
+        ck.distinct(['l2up', sc, f['schedule_seed']])
+    nacc = ntot = nup = 0
+    for wb, items in groups.items():
+        nproc = max(f['nproc'] for t, f in items)
+        v = tracecheck.validate('EioQueueFineUpTrace', [x[0] for x in items],
+                                constants=up_trace_consts(nproc, wb), invariants=UP_INVS)
+        ck.cov['states'] += v.states
+        ck.cov['transitions'] += v.generated
+        nacc += len(v.accepted)
+        ntot += len(items)
+        nup += sum(1 for t, f in items if t['final']['upgraded'])
+        for i in v.rejected[:3]:
+            ck.violation('primitive-level upgrade trace rejected by EioQueueFineUp (schedule seed %s)'
+                         % items[i][1]['schedule_seed'],
+                         {'script': items[i][1]['script'], 'schedule_seed': items[i][1]['schedule_seed'],
+                          'trace': items[i][0], 'up': True, 'kind': 'l2-trace'})
+        for i, inv, txt in v.inv_violations[:3]:
+            ck.violation('EioQueueFineUp invariant %s violated on a real execution' % inv,
+                         {'script': items[i][1]['script'], 'schedule_seed': items[i][1]['schedule_seed'],
+                          'tlc': txt, 'up': True, 'kind': 'l2-trace'})
+    if nup < ntot // 6:
+        raise MachineryError('vacuity: only %d of %d upgrade executions completed the upgrade' % (nup, ntot))
+    ck.add_conformance('threaded server, one polling session being upgraded, under pre-emptive '
+                       'schedules: the upgrade request (flag writes, wait() calls and returns, '
+                       'put(NOOP)), the writer thread, concurrent GETs and send() calls, the client '
+                       'sending probe / UPGRADE / wrong frames or going away: every primitive is one '
+                       'step of EioQueueFineUp; final queue, counter, flags, deliveries per transport '
+                       'must match', ntot, nacc, completed_upgrades=nup)
+
+
 def replay_l2(pid, rp):
     from ..harness import l2
-    if rp.get('ws'):
+    if rp.get('up'):
+        t, f = l2.run_up(rp['script'], seed=rp['schedule_seed'])
+        v = tracecheck.validate('EioQueueFineUpTrace', [t],
+                                constants=up_trace_consts(max(3, f['nproc']), rp['script']['wb']),
+                                invariants=UP_INVS)
+    elif rp.get('ws'):
         t, f = l2.run_ws(rp['script'], seed=rp['schedule_seed'])
         consts = dict(l2_consts(12, MaxMsg=99, Cap=16, SerialPolls='FALSE', Timeouts='FALSE'),
                       Kinds='{"send", "disc"}', WsEnv='{"close", "gone"}')
